@@ -27,6 +27,7 @@ import registry  # noqa: E402
 MODULE = "github.com/koordinator-sh/koordinator"
 RAPID_REQ = "pgregory.net/rapid v1.3.0"
 MAX_WORKERS = int(os.environ.get("VERIF_WORKERS", "14"))
+THOROUGH_SCALE = float(os.environ.get("VERIF_THOROUGH_SCALE", "3"))
 
 
 def log(*a):
@@ -259,6 +260,11 @@ def make_jobs(pid, prop, tier, seed_base, bins, bdir, only=None):
             checks = t.get(tier, t.get("quick", 100))
             shards = t.get("shards", 12) if tier == "thorough" else t.get("quick_shards", 1)
             timeout = t.get("timeout_" + tier, 1500 if tier == "thorough" else 420)
+            if tier == "thorough" and t.get("rapid", True):
+                # the registry holds the per-process counts the harness authors measured (1-4 min per property);
+                # the thorough tier multiplies them (default x3, still bounded: case counts, not a time limit, decide)
+                checks = int(checks * THOROUGH_SCALE)
+                timeout = int(timeout * max(1.0, THOROUGH_SCALE)) + 600
             for sh in range(shards):
                 seed = seed_base * 1000 + sh + 1
                 tag = "%s.%s.%d" % (unit["name"], t["run"], sh)
